@@ -105,6 +105,7 @@ TRUSTED = [
     "Lean 4.33.0 kernel; axioms allowed: propext, Classical.choice, Quot.sound (audited per theorem by #print axioms)",
     "no native_decide / bv_decide / sorry / admit / added axioms (grep on every run)",
     "harness/translate.py + harness/sites.py (Python AST -> Lean, functions and sites inside methods), validated per run by differential execution of the Float copies against the Python originals / compiled site expressions",
+    "harness/progtx*.py (statement-level translators: whole method bodies -> Lean programs) and their hand-written vocabularies of torch / CPython primitives (Gen/*Prelude.lean); the programs are proved equal to the hand-written models (Props/*GlueProg.lean, Props/C01Glue.lean), which the correspondence check validates against the real code",
     "harness correspondence check + driver line protocol (parsing, canonicalisation)",
     "hand-written models of torch/CPython primitives (slicing, cat, roll, gather/scatter, hooks, state_dict), validated by correspondence only",
     "element-wise lifting of scalar definitions to tensors; Lean Float = IEEE double = torch float64 op-by-op",
